@@ -6,19 +6,19 @@ import os
 HERE = os.path.dirname(os.path.dirname(os.path.abspath(__file__)))
 ALL = ["C%02d" % i for i in range(1, 21)]
 
-CLAIMED = {
-    "C12": {
-        "category": "proof",
-        "text": "Lean 4 theorems over an executable model of pkg/convert ordered encodings and pkg/pb/v1 series marshalling: "
-                "int64/int32 byte order = signed order and round trip for every value; float64 byte order = IEEE order "
-                "and bit-exact round trip for every bit pattern; Series.Marshal injective and Unmarshal∘Marshal = normalise "
-                "for all subjects/values. Model tied to the Go code by a byte-exact differential run on every check.",
-        "design_ref": "DESIGN.md 6/C12",
-        "note": "Lean kernel; bv_decide leaf lemmas in Banyan/Lemmas/Bits.lean (enumerated in evidence); correspondence "
-                "check (random+edge pools); xxhash is a parameter; IEEE `>=` modelled on bit patterns.",
-        "technique": "Lean 4 proof (round-trip/order/injectivity theorems) + byte-exact model/implementation correspondence",
-    },
-}
+def load_claimed():
+    """one fragment per claimed property: checks/Cxx.manifest.json with keys
+    category, text, design_ref, note, technique"""
+    out = {}
+    d = os.path.join(HERE, "checks")
+    for f in sorted(os.listdir(d)):
+        if f.endswith(".manifest.json"):
+            out[f.split(".")[0]] = json.load(open(os.path.join(d, f)))
+    return out
+
+
+CLAIMED = load_claimed()
+NA_REASONS = json.load(open(os.path.join(HERE, "checks", "not_applicable.json"))) if os.path.exists(os.path.join(HERE, "checks", "not_applicable.json")) else {}
 
 NOT_YET = "no check built yet in this tree (work in progress; see DESIGN.md section 6 for the intended model and theorems)"
 
@@ -57,7 +57,7 @@ def main():
                               "line-protocol inputs as the compiled Lean model; property oracle on the implementation output",
         }],
         "checks": checks,
-        "not_applicable": [{"property_id": p, "reason": NOT_YET} for p in ALL if p not in CLAIMED],
+        "not_applicable": [{"property_id": p, "reason": NA_REASONS.get(p, NOT_YET)} for p in ALL if p not in CLAIMED],
         "notes": "See DESIGN.md. KNOWN_FINDINGS.txt lists known findings and fixed defects.",
     }
     with open(os.path.join(HERE, "MANIFEST.json"), "w") as fh:
